@@ -2,7 +2,7 @@
 //!
 //! Rules (the trusted base of the `ilv` engine, bound to the real crates by the conformance replay):
 //! * exactly one scheduling point *before* every visible operation (lock acquisition, atomic access,
-//!   channel send/recv, spawn, join); none at releases - a release followed by the thread's next
+//!   channel send/recv, the drop that disconnects a channel, spawn, join); none at lock releases - a release followed by the thread's next
 //!   scheduling point exposes the same interleavings;
 //! * a blocked operation parks the task; every state change re-evaluates which waiters are eligible
 //!   (eligible waiters race, i.e. barging is allowed, like parking_lot, dashmap's lock and crossbeam);
@@ -28,8 +28,18 @@ pub mod atomic {
         world::try_with(|w| w.constructing).unwrap_or(false)
     }
 
+    #[derive(Clone, Copy, PartialEq, Eq)]
+    enum Class {
+        Plain,
+        Id,
+        Stats,
+    }
+
     macro_rules! atomic_int {
         ($name:ident, $t:ty) => {
+            atomic_int!($name, $t, Class::Plain);
+        };
+        ($name:ident, $t:ty, $class:expr) => {
             pub struct $name {
                 v: Cell<$t>,
                 lifecycle: bool,
@@ -42,10 +52,15 @@ pub mod atomic {
                 }
                 #[inline]
                 fn point(&self) {
-                    if self.lifecycle && !world::cfg().lifecycle_atomics_are_points {
-                        return;
+                    let cfg = world::cfg();
+                    let is_point = match $class {
+                        Class::Plain => !(self.lifecycle && !cfg.lifecycle_atomics_are_points),
+                        Class::Id => cfg.id_atomics_are_points,
+                        Class::Stats => cfg.stats_atomics_are_points,
+                    };
+                    if is_point {
+                        rt::switch();
                     }
-                    rt::switch();
                 }
                 pub fn load(&self, _o: Ordering) -> $t {
                     self.point();
@@ -147,6 +162,11 @@ pub mod atomic {
     atomic_arith!(AtomicUsize, usize);
     atomic_arith!(AtomicU32, u32);
     atomic_arith!(AtomicU8, u8);
+    // the id generator and the statistics counters import their atomics under distinct names (see the seam)
+    atomic_int!(IdAtomicU64, u64, Class::Id);
+    atomic_arith!(IdAtomicU64, u64);
+    atomic_int!(StatsAtomicU64, u64, Class::Stats);
+    atomic_arith!(StatsAtomicU64, u64);
     impl AtomicBool {
         pub fn fetch_or(&self, v: bool, _o: Ordering) -> bool {
             self.point();
@@ -1011,6 +1031,10 @@ pub mod crossbeam_channel {
     }
     impl<T> Drop for Sender<T> {
         fn drop(&mut self) {
+            // disconnecting is a visible operation (it changes what receivers observe): scheduling point first
+            if self.c.0.borrow().senders == 1 {
+                rt::switch();
+            }
             let last = {
                 let mut c = self.c.0.borrow_mut();
                 c.senders -= 1;
@@ -1029,6 +1053,10 @@ pub mod crossbeam_channel {
     }
     impl<T> Drop for Receiver<T> {
         fn drop(&mut self) {
+            // disconnecting is a visible operation (later sends fail, queued messages are discarded)
+            if self.c.0.borrow().receivers == 1 {
+                rt::switch();
+            }
             let (last, dropped) = {
                 let mut c = self.c.0.borrow_mut();
                 c.receivers -= 1;
